@@ -93,8 +93,8 @@ def profile_for(consts, variant=0, dim=3):
             "rels": g("Rels"), "gname": consts["GName"].strip('"'), "dim": dim, "variant": variant}
 
 
-def model_check(chk, name, consts, workers=None, timeout=900):
-    cfg = make_cfg("Spec", consts, INVS, PROPS, constraint="Bound", view="View")
+def model_check(chk, name, consts, workers=None, timeout=900, spec="Spec"):
+    cfg = make_cfg(spec, consts, INVS, PROPS, constraint="Bound", view="View")
     r = run_tlc("MC_Kektor", name + ".cfg", cfg_text=cfg, workers=workers, timeout=timeout)
     chk.add_tlc(name, r)
     if r.violated:
@@ -337,10 +337,11 @@ def run(prop, tier):
             if prop != "C01":      # C01's quick tier leaves the design-level graph run to C10 (same module, same invariants)
                 model_check(chk, "MC_Kektor_graph", dict(GRAPH_Q, MaxOps=3), timeout=900)
         else:
-            # (GRAPH_Q with 4 operations is 3.5M states with the crash model and did not finish in 50 minutes next to other
-            #  runs; the thorough tier keeps bounds that finish: 3 operations on both graph universes)
-            model_check(chk, "MC_Kektor_graph_small", dict(GRAPH_Q, MaxOps=3), timeout=5400)
-            model_check(chk, "MC_Kektor_graph", dict(graph, MaxOps=3), timeout=5400)
+            # SpecG cuts the behaviours inside the next-state relation, so the last (largest) level is not expanded:
+            # all histories of <= 4 calls on the small graph universe, <= 3 calls on the full one
+            # (the constraint-only form of the same bounds did not finish in 90 minutes next to other runs)
+            model_check(chk, "MC_Kektor_graph_small", dict(GRAPH_Q, MaxOps=4), timeout=5400, spec="SpecG")
+            model_check(chk, "MC_Kektor_graph", dict(graph, MaxOps=3), timeout=5400, spec="SpecG")
         cb = corpus(chk, "MC_Kektor_graph_corpus", dict(graph, MaxOps=2 if quick else 3), workers=4)
         cs = corpus(chk, "MC_Kektor_graph_walks", dict(graph, MaxOps=12, MaxFile=8, MaxCtr=4, MaxRej=1, MaxVer=3),
                     simulate=200 if quick else 2000, depth=12, workers=1)
